@@ -26,6 +26,10 @@ func init() { register("C10", c10) }
 //	R  stream blocked in RecvMsg             S  stream blocked in SendMsg (peer does not read)
 //	X  stream blocked on its context         e  stream that echoes one message and ends
 //	Z  stream that the peer resets; its handler notices the cancellation and then winds down slowly
+//	H  stream blocked on its context whose peer sends a message and half-closes: the message fills the stream's
+//	   inbox, the half-close parks the connection's read loop      F  the same with a second message instead of
+//	   the half-close      h  like H with the handler blocked in SendMsg      (H, F, h come last in a set:
+//	   nothing after them is read)
 type c10End struct {
 	kind string // "read" | "write" | "stop"
 	at   int
@@ -38,8 +42,10 @@ func c10(tier string) []*explore.Scenario {
 	sets = append(sets, "UUUUUUUUU", "UUUUUUUUUU", "UUUUUUUUUo", "UUUUUUUUUR")
 	// the statement's full range (8 unary and 8 streaming handlers in flight), default schedule
 	sets = append(sets, "UUUUUUUU", "RRRRRRRR", "XXXXSSSS", "UUUUUUUURRRRRRRR", "RRRRRRRRUUUUUUUU", "URXSURXSURXSURXS", "TTTTDDDD")
+	// the read loop parked delivering to a stream whose handler does not receive
+	sets = append(sets, "H", "F", "h", "oH", "UH", "RF", "oh", "XH", "UUUUUUUUH")
 	if tier == "thorough" {
-		sets = append(sets, "UURR", "oURXS")
+		sets = append(sets, "UURR", "oURXS", "oUH", "RXh")
 	}
 	for _, set := range sets {
 		nreq := 0
@@ -60,11 +66,14 @@ func c10(tier string) []*explore.Scenario {
 			out = append(out, c10One(set, c10End{"stop", 9}, bound))
 			continue
 		}
+		parks := strings.ContainsAny(set, "HFh") // the read after the last request is never issued
 		for k := 0; k <= nreq; k++ {
-			out = append(out, c10One(set, c10End{"read", k}, bound))
+			if !(parks && k == nreq) {
+				out = append(out, c10One(set, c10End{"read", k}, bound))
+			}
 			out = append(out, c10One(set, c10End{"stop", k}, bound))
 		}
-		nresp := strings.Count(set, "o") + 2*strings.Count(set, "S") + 2*strings.Count(set, "e") + strings.Count(set, "B") + strings.Count(set, "M")
+		nresp := strings.Count(set, "o") + 2*strings.Count(set, "S") + 2*strings.Count(set, "e") + strings.Count(set, "B") + strings.Count(set, "M") + 2*strings.Count(set, "h")
 		for k := 0; k < nresp; k++ {
 			out = append(out, c10One(set, c10End{"write", k}, bound))
 		}
@@ -208,7 +217,7 @@ func c10Reqs(c rune) int {
 		return 1
 	case 'Z':
 		return 2
-	case 'e':
+	case 'e', 'H', 'F', 'h':
 		return 3
 	}
 	return 0
@@ -282,10 +291,13 @@ func c10One(set string, end c10End, bound int) *explore.Scenario {
 						return status.Error(codes.Canceled, "reset")
 					}
 					script = append(script, env.ReqOpen(id, env.MBidi, tag), env.ReqReset(id, env.MBidi))
-				case 'R', 'X', 'S', 'D':
+				case 'R', 'X', 'S', 'D', 'H', 'F', 'h':
 					r := w.Rec(tag, "Bidi")
 					recs = append(recs, r)
 					mode := c
+					if c == 'h' {
+						mode = 'S'
+					}
 					w.Handlers[tag] = func(r *env.Rec, ss grpc.ServerStream) error {
 						switch mode {
 						case 'R':
@@ -311,6 +323,12 @@ func c10One(set string, end c10End, bound int) *explore.Scenario {
 						open.Header.Headers = append(open.Header.Headers, kv("grpc-timeout", "1H"), kv("x-k", "v"))
 					}
 					script = append(script, open)
+					switch c {
+					case 'H', 'h':
+						script = append(script, env.ReqBody(id, env.MBidi, tag+".m0"), env.ReqTrailer(id, env.MBidi))
+					case 'F':
+						script = append(script, env.ReqBody(id, env.MBidi, tag+".m0"), env.ReqBody(id, env.MBidi, tag+".m1"))
+					}
 				}
 			}
 			vsched.Settle()
